@@ -32,7 +32,8 @@ pub fn run(outdir: &Path, tier: &str, seed: u64, shards: usize, replay: Option<S
     } else {
         let mut ps = crate::c01dir::directed();
         let extra = crate::c01dir::snake_case_types();
-        let nprog = nprog + extra.len();
+        // the random programs are in addition to the directed ones (quick: 18, thorough: 146)
+        let nprog = ps.len() + extra.len() + nprog - 14;
         ps.extend(extra);
         let mut tries = 0;
         while ps.len() < nprog && tries < nprog * 4 {
